@@ -19,10 +19,25 @@ def gen_metamodel(rng, k):
     from pyecore import ecore as E
     root = E.EPackage(f'm{k}', f'http://verif/m{k}', f'm{k}')
     pkgs = [root]
-    if rng.random() < .5:
+    # package trees: none, one level, nested (root > sub > deep), siblings, and a nested package named like a first-level
+    # one (root.b and root.sub.b) — name-based fragments walk this tree
+    shape = rng.choice(['flat', 'one', 'one', 'nested', 'nested', 'siblings', 'same-name'])
+    if shape != 'flat':
         sub = E.EPackage('sub', f'http://verif/m{k}/sub', 'sub')
         root.eSubpackages.append(sub)
         pkgs.append(sub)
+        if shape in ('nested', 'same-name'):
+            deep = E.EPackage('b' if shape == 'same-name' else 'deep', f'http://verif/m{k}/sub/deep', 'deep')
+            sub.eSubpackages.append(deep)
+            pkgs.append(deep)
+            if rng.random() < .4:
+                deeper = E.EPackage('deeper', f'http://verif/m{k}/sub/deep/deeper', 'deeper')
+                deep.eSubpackages.append(deeper)
+                pkgs.append(deeper)
+        if shape in ('siblings', 'same-name'):
+            sib = E.EPackage('b', f'http://verif/m{k}/b', 'b')
+            root.eSubpackages.append(sib)
+            pkgs.append(sib)
     enums, dts, classes = [], [], []
     for i in range(rng.choice([0, 1, 2])):
         en = E.EEnum(f'En{i}', literals=[f'L{i}{j}' for j in range(rng.randint(1, 4))])
